@@ -6,7 +6,8 @@
 //   nopanic.entry.short   every datagram shorter than the 20-byte RTPS header (length 0..=19, every
 //                         byte value, incl. the "RTPS…DDSPING" ping): returns without panicking
 //                         (no out-of-bounds slice/index, no failing unwrap, no overflow)
-//   nopanic.entry.magic   length 20..=24 whose first four bytes are not "RTPS": likewise
+// (length 20..=24 with a wrong magic is NOT reached by Kani: the magic comparison is symbolic, so CBMC
+// walks into the parser behind it; that part is enumerated by the executable contract xc/datagram_entry.rs)
 // Only the datagram is symbolic.  `alloc::fmt::format` stubbed (log text).
 #[cfg(kani)]
 pub(crate) mod verif_c06_entry {
@@ -23,26 +24,20 @@ pub(crate) mod verif_c06_entry {
     MessageReceiver::new(GuidPrefix::UNKNOWN, acknack_sender, spdp_liveness_sender, None)
   }
 
+  // The length is enumerated concretely (0..=19, loop fully unwound) and every byte is symbolic: with
+  // a symbolic length CBMC cannot decide `len < RTPS_MESSAGE_HEADER_SIZE` during symbolic execution
+  // and walks into the whole parser + submessage interpreter behind it (> 8 GB, > 10 min).
   #[kani::proof] #[kani::unwind(22)] #[kani::stub(alloc::fmt::format, stub_format)]
   fn c06_entry_short_datagram() {
     let mut mr = receiver();
-    let buf: [u8; 19] = kani::any();
-    let len: usize = kani::any();
-    kani::assume(len <= 19);
-    kani::cover!(len == 0, "empty datagram");
-    kani::cover!(len == 19 && buf[0] == b'R' && buf[9] == b'D', "ping-shaped datagram");
-    mr.handle_received_packet(&Bytes::copy_from_slice(&buf[..len]));
-    core::mem::forget(mr); // the receiver lives as long as the event loop; its destructor (readers, sockets, timers) is not part of the claim
-  }
-
-  #[kani::proof] #[kani::unwind(27)] #[kani::stub(alloc::fmt::format, stub_format)]
-  fn c06_entry_bad_magic() {
-    let mut mr = receiver();
-    let buf: [u8; 24] = kani::any();
-    let len: usize = kani::any();
-    kani::assume(len >= 20 && len <= 24);
-    kani::assume(!(buf[0] == b'R' && buf[1] == b'T' && buf[2] == b'P' && buf[3] == b'S'));
-    mr.handle_received_packet(&Bytes::copy_from_slice(&buf[..len]));
+    let mut len: usize = 0;
+    while len <= 19 {
+      let buf: [u8; 19] = kani::any();
+      kani::cover!(len == 19 && buf[0] == b'R' && buf[9] == b'D', "ping-shaped datagram");
+      mr.handle_received_packet(&Bytes::copy_from_slice(&buf[..len]));
+      len += 1;
+    }
+    kani::cover!(len == 20, "all lengths 0..=19 done");
     core::mem::forget(mr); // the receiver lives as long as the event loop; its destructor (readers, sockets, timers) is not part of the claim
   }
 }
